@@ -89,6 +89,20 @@ def threshold_named():
                               "value", f"opt_value(result) == uf_real('thr', {L0}, target_labels, threshold_list)"))
 
 
+def correctness_tasks(P):
+    """is_result_correct, per matching mode, against the statement's definition of a correct result (shared with C08)"""
+    idx = P.index
+    RES = TSObj("DynamicObjectWithPerceptionResult")
+    MM = idx.lookup(f"{OM}:MatchingMode")
+    modes = [n for n, _ in MM.enum_members(idx)]
+    for mi, mode in enumerate(modes):
+        p = {"self": RES, "matching_mode": VEnum(MM, mi), "matching_threshold": Opt(TReal())}
+        iou_req = E("iou_threshold_in_unit_interval", "implies(matching_threshold is not None, 0 <= matching_threshold and matching_threshold <= 1)") if mode.startswith("IOU") else []
+        P.verify(f"{OR}:DynamicObjectWithPerceptionResult.is_result_correct", name=f"is_result_correct[{mode}]",
+                 contract=Contract(f"{OR}:DynamicObjectWithPerceptionResult.is_result_correct", cut=False, params=p, requires=iou_req,
+                                   ensures=E("correct_iff_statement", f"result == {correct_def('self', mode, 'matching_threshold')}")))
+
+
 def build(P):
     idx = P.index
     models(P)
@@ -101,12 +115,10 @@ def build(P):
     AL = TEnum(idx.lookup("common.label:AutowareLabel"))
     modes = [n for n, _ in MM.enum_members(idx)]
     # ---------------------------------------------------------------- is_result_correct / get_status, per matching mode
+    correctness_tasks(P)
     for mi, mode in enumerate(modes):
         p = {"self": RES, "matching_mode": VEnum(MM, mi), "matching_threshold": Opt(TReal())}
         iou_req = E("iou_threshold_in_unit_interval", "implies(matching_threshold is not None, 0 <= matching_threshold and matching_threshold <= 1)") if mode.startswith("IOU") else []
-        P.verify(f"{OR}:DynamicObjectWithPerceptionResult.is_result_correct", name=f"is_result_correct[{mode}]",
-                 contract=Contract(f"{OR}:DynamicObjectWithPerceptionResult.is_result_correct", cut=False, params=p, requires=iou_req,
-                                   ensures=E("correct_iff_statement", f"result == {correct_def('self', mode, 'matching_threshold')}")))
         named = Contract(f"{OR}:DynamicObjectWithPerceptionResult.is_result_correct", params={}, returns=TBool(), requires=iou_req,
                          ensures=E("named", f"result == {CORRECT('self', 'matching_mode', 'matching_threshold')}"))
         sc = status_contract(P)
